@@ -42,6 +42,7 @@ CONSTANTS Threads,      \* thread names (strings)
           MaxOps,       \* calls per thread
           MaxSteps,     \* calls per behaviour
           Pool,         \* number of value ids
+          SplitLoad,    \* TRUE: a Get's load is two steps (document read, then the rest) - needed when the bucket can change under a load
           MaxUpd,       \* metadata-only updates of the bucket (StoreUpdate) per behaviour; 0 = the bucket never changes (and the load is one step)
           SeqPrefix     \* the first SeqPrefix calls run alone, one whole call at a time (>= MaxSteps: the sequential behaviours that are replayed)
 
@@ -159,7 +160,7 @@ ImplGetValue(t) ==
 (* value.load / loadForDoc.  The value lock is held from the check until the result is written; when the bucket can change
    (MaxUpd > 0) a Get's load is two steps - GetDocument (the document is READ: snapshot th.d) and the rest - so that a
    StoreUpdate and its invalidation can fall between them.  GetActive loads from the document it read in GaDoc. *)
-Split == MaxUpd > 0
+Split == SplitLoad
 ImplLoad(t) ==
   LET v == th[t].v
       x == val[v]
@@ -285,11 +286,14 @@ ImplPeekGet(t) ==
      ELSE /\ pc' = FinPc(t, FALSE) /\ out' = FinOut(t, th, FALSE)
           /\ SetImpl(cmap, lru, val, numItems, total, FinTh(t, th, FALSE))
 
-ImplPeekRead(t) ==
+ImplPeekRead(t) ==      \* value.lock.TryRLock + asDocumentRevision: a value that is being written (or whose lock is contended) reads as absent
   LET x == val[th[t].v]
-      thr == [th EXCEPT ![t].res = IF x.e THEN Nil ELSE x.c] IN
-  /\ pc' = FinPc(t, FALSE) /\ out' = FinOut(t, thr, FALSE) /\ UNCHANGED evLock
-  /\ SetImpl(cmap, lru, val, numItems, total, FinTh(t, thr, FALSE))
+      proper == IF x.e \/ x.ldg THEN Nil ELSE x.c
+      busy == \E u \in Threads \ {t} : th[u].v = th[t].v IN
+  \E r \in {proper} \cup (IF busy THEN {Nil} ELSE {}) :
+    LET thr == [th EXCEPT ![t].res = r] IN
+    /\ pc' = FinPc(t, FALSE) /\ out' = FinOut(t, thr, FALSE) /\ UNCHANGED evLock
+    /\ SetImpl(cmap, lru, val, numItems, total, FinTh(t, thr, FALSE))
 
 (* orchestrator: triggerMemoryEviction (only reached when maxBytes > 0) *)
 RetTh(t, thr) == [thr EXCEPT ![t] = IdleTh]
